@@ -27,7 +27,7 @@ const (
 
 func (*engine) Plan(tier string) int64 {
 	if tier == "thorough" {
-		return int64(blockSizes*nLayouts*6) + 400000
+		return int64(blockSizes*nLayouts*6) + 1000000
 	}
 	return int64(blockSizes*nLayouts) + 30000
 }
